@@ -566,7 +566,7 @@ pub fn run(rc: &RunCtx) -> Outcome {
         *per_class.entry(decl_class(d)).or_insert(0) += 1;
     }
     let mut observed: Vec<BTreeMap<usize, Vec<String>>> = Vec::new();
-    let profiles = ["dev", "release"];
+    let profiles = ["dev", "release-asdep"];
     for mp in profiles {
         observed.push(check_decls(rc, "decl", &items, mp));
     }
